@@ -144,8 +144,11 @@ def _q_norm(q):
         else:
             kids.append(nc)
     conn = q.connector if len(kids) > 1 else 'AND'
-    if len(kids) == 1 and not q.negated and kids[0][0] == 'node':
-        return kids[0]
+    if len(kids) == 1 and kids[0][0] == 'node':
+        # a wrapper around a single node: its own connector is irrelevant, its negation is
+        # absorbed into the wrapped node
+        inner = kids[0]
+        return ('node', inner[1], bool(q.negated) != inner[2], inner[3])
     return ('node', conn, bool(q.negated), tuple(kids))
 
 
